@@ -128,13 +128,13 @@ def lattice_candidates(tier, max_chi, allow_cyclic=True, allow_layers=True, min_
                         continue
                     if max(Lx, Ly) > max(max_L, 4):
                         continue
-                    w = 1
+                    w = 2
                     if min(Lx, Ly) >= 3:
-                        w += 2
-                    if D == 1:
-                        w = 1
+                        w += 4
+                    if max(Lx, Ly) == 2:
+                        w = 1  # nothing to sweep with max_separation >= 1: only the final exact contraction
                     if D >= 2 and (cx or cy or layers == 2):
-                        w += 1
+                        w += 2
                     out += [lat] * w
     return out
 
@@ -236,6 +236,17 @@ def lat_nontrivial(lat, ndirs=1):
     return min(lat["Lx"], lat["Ly"]) >= 3 or lat.get("layers", 1) == 2 or ndirs >= 2
 
 
+def will_sweep(lat, dirs, opts, default=None):
+    """Classification only: does at least one inward step happen (some requested side is further than
+    max_separation from its opposite side)?  `dirs` None = the default of the code."""
+    ms = int(opts.get("max_separation", 1))
+    L = {"x": lat["Lx"], "y": lat["Ly"], "z": lat.get("Lz", 1)}
+    sep = {d: int(opts.get(d + "max", L[d] - 1)) - int(opts.get(d + "min", 0)) for d in "xyz"}
+    if dirs is None:
+        dirs = default if default is not None else (["xmin", "xmax"] if lat["Lx"] >= lat["Ly"] else ["ymin", "ymax"])
+    return any(sep[d[0]] > ms for d in dirs)
+
+
 # ---------------------------------------------------------------------------
 # (a) 2D boundary contraction: exactness, one sub-check per boundary mode
 # ---------------------------------------------------------------------------
@@ -291,6 +302,20 @@ def seq_dirs(seq, lat=None):
         inv = {v: k for k, v in SHORT2.items()}
         return [inv[c] for c in seq]
     return list(seq)
+
+
+def make_it_sweep(lat, seq, opts, default=None):
+    """Generator repair (construct, don't filter): if the drawn combination would not perform a single inward step,
+    drop what prevents it -- first the start borders and max_separation, then the drawn sequence (the default sequence
+    sweeps along the longest side).  Returns the (possibly replaced) sequence."""
+    dirs = seq_dirs(seq)
+    if will_sweep(lat, dirs, opts, default):
+        return seq
+    for k in ("xmin", "xmax", "ymin", "ymax", "zmin", "zmax", "max_separation"):
+        opts.pop(k, None)
+    if will_sweep(lat, dirs, opts, default):
+        return seq
+    return None
 
 
 @st.composite
@@ -360,6 +385,7 @@ def s_b2d(group):
         case = {"lat": lat, "mode": mode, "sequence": draw(s_sequence2d()), "opts": draw(s_boundary_opts(mode, lat)),
                 "final_contract": draw(st.sampled_from([True, True, False])), "inplace": draw(st.sampled_from([False, False, True])),
                 "chi_extra": draw(st.sampled_from([0, 0, 1, 5])), "max_bond_none": False}
+        case["sequence"] = make_it_sweep(lat, case["sequence"], case["opts"])
         if mode in SEEDED:
             case["seed"] = draw(st.integers(0, 2**31 - 1))
         if mode in ("mps", "projector2d") and not case["opts"].get("compress_late", True) is False and draw(st.integers(0, 4)) == 0:
@@ -402,7 +428,9 @@ def run_b2d(case):
     cls.append("final" if case["final_contract"] else "network")
     if chi is None:
         cls.append("max_bond=None")
-    return {"nt": lat_nontrivial(lat, nd), "cls": cls, "err": e}
+    swept = will_sweep(lat, dirs, kw)
+    cls.append("swept" if swept else "no-step")
+    return {"nt": lat_nontrivial(lat, nd) and swept, "cls": cls, "err": e}
 
 
 
@@ -742,6 +770,7 @@ def s_cap_boundary(draw, tier):
             "entry": "ctmrg" if mode in CTMRG_MODES and draw(st.booleans()) else "boundary"}
     if mode in SEEDED:
         case["seed"] = draw(st.integers(0, 2**31 - 1))
+    case["sequence"] = make_it_sweep(lat, case["sequence"], case["opts"], default=DIRS2 if case["entry"] == "ctmrg" else None)
     return case
 
 
@@ -1110,7 +1139,7 @@ def s_ctmrg2d(draw, tier):
         o["max_separation"] = ms
     if mode == "projector" and draw(st.integers(0, 4)) == 0:
         o["lazy"] = True
-    return {"lat": lat, "mode": mode, "opts": o, "sequence": draw(s_sequence2d()),
+    return {"lat": lat, "mode": mode, "opts": o, "sequence": make_it_sweep(lat, draw(s_sequence2d()), o, default=DIRS2),
             "final_contract": draw(st.sampled_from([True, True, False])), "inplace": draw(st.sampled_from([False, False, True]))}
 
 
@@ -1128,7 +1157,9 @@ def run_ctmrg2d(case):
     nd = 4 if dirs is None else len(dirs)
     cls = lat_classes(lat) + ["mode=" + mode, "ndirs=%d" % nd, "final" if case["final_contract"] and not o.get("lazy") else "network"]
     cls += ["opt:" + k for k in sorted(o)]
-    return {"nt": lat_nontrivial(lat, nd), "cls": cls, "err": e}
+    swept = will_sweep(lat, dirs, o, default=DIRS2)
+    cls.append("swept" if swept else "no-step")
+    return {"nt": lat_nontrivial(lat, nd) and swept, "cls": cls, "err": e}
 
 
 
@@ -1145,9 +1176,9 @@ B3D_GROUPS = {"peps": ["peps"], "projector3d": ["projector3d"], "l2bp3d": ["l2bp
 
 @st.composite
 def s_lattice3d(draw, tier, min_D=1, allow_cyclic=True):
-    shapes = [(2, 2, 2), (2, 2, 2), (2, 2, 3), (2, 3, 2), (3, 2, 2)]
+    shapes = [(2, 2, 2), (2, 2, 3), (2, 3, 2), (3, 2, 2), (2, 2, 3), (2, 3, 2), (3, 2, 2)]
     if tier != "quick":
-        shapes += [(2, 3, 3), (3, 2, 3), (3, 3, 2), (2, 2, 4)]
+        shapes += [(2, 3, 3), (3, 2, 3), (3, 3, 2), (2, 2, 4), (3, 3, 3)]
     Lx, Ly, Lz = draw(st.sampled_from(shapes))
     D = draw(st.sampled_from([d for d in (1, 2, 2, 2, 2, 3) if d >= min_D]))
     if D == 3 and Lx * Ly * Lz > 8:
@@ -1231,7 +1262,7 @@ def s_b3d(group):
         o = draw(s_opts3d(mode))
         if gauged3d(mode, o):
             lat["kind"] = "gauss"
-        return {"lat": lat, "mode": mode, "sequence": draw(s_sequence3d()), "opts": o,
+        return {"lat": lat, "mode": mode, "sequence": make_it_sweep(lat, draw(s_sequence3d()), o, default=DIRS3), "opts": o,
                 "final_contract": draw(st.sampled_from([True, True, False])), "inplace": draw(st.sampled_from([False, False, True])),
                 "binding": draw(st.integers(0, 2)) == 0, "chi_frac": draw(st.floats(0.0, 1.0))}
 
@@ -1265,7 +1296,9 @@ def run_b3d(case):
                         canonize=o.get("canonize", True))
     cls = lat_classes(lat) + ["mode=" + mode, "ndirs=%d" % nd, "binding" if binding else "exact", "final" if final else "network"]
     cls += ["opt:" + k for k in sorted(o)] + (["capbonds=%d" % min(nb, 9)] if binding else [])
-    return {"nt": lat["D"] >= 2 and (not binding or nb > 0), "cls": cls, "err": e}
+    swept = will_sweep(lat, case["sequence"], o, default=DIRS3)
+    cls.append("swept" if swept else "no-step")
+    return {"nt": lat["D"] >= 2 and swept and (not binding or nb > 0), "cls": cls, "err": e}
 
 
 # belief-propagation / simple-update flavoured modes are exact only while every boundary tensor keeps a dangling
